@@ -115,6 +115,19 @@ def splineNew (pts : List (List α)) : Outcome (List (List α)) :=
   if 4 ≤ pts.length ∧ pts.length % 3 = 1 then .ok pts
   else .panic "length must be 3n+1 for some integer n > 0"
 
+/-- spline.rs:188-204, the `while let` loop of `from_rays`: every ray `(p, v)` contributes
+`p.add(&v.neg())` (unless it is the first), `p`, and `p.add(&v)` (unless it is the last). -/
+def fromRaysPts : Bool → List (List α × List α) → List (List α)
+  | _, [] => []
+  | first, (p, v) :: rest =>
+    (if first then [] else [vadd p (vneg v)]) ++ [p] ++
+      (if rest.isEmpty then [] else [vadd p v]) ++ fromRaysPts false rest
+
+/-- spline.rs:188-206 `BezierSpline::from_rays`: the points above, handed to `new` (which panics
+for fewer than two rays). -/
+def fromRays (rays : List (List α × List α)) : Outcome (List (List α)) :=
+  splineNew (fromRaysPts true rays)
+
 /-- The segment index chosen by spline.rs:228-232:
 `segs = ((len-1)/3) as f32; seg = ((t*segs) as u32 as f32).min(segs - 1.0); idx = 3*(seg as usize)`.
 `seg` is a small non-negative integer held in an `f32`; it is modelled as the `Nat` it denotes
